@@ -242,6 +242,13 @@ func handlerErr(f Fault) error {
 
 // drawFault draws a fault for a history whose fault-free script from the given
 // position has nsteps packets, ntx deliveries and nmaps distinct table maps.
+// masterErrCodes: the error numbers a server really puts into the ERR packet that ends a dump (fatal
+// replication error, access denied, lost connection, the three shutdown notices 1053 / 1077 / 1079, killed
+// connection / interrupted query, aborted connection, net errors, out of resources, unknown error, the
+// MariaDB kill notice), the extremes, and 0 = any other number.  None of them is an end of file: whatever
+// the number says, the master's error is the reason the stream ended.
+var masterErrCodes = []int{1, 1236, 1045, 2013, 65535, 0, 1053, 1077, 1079, 1317, 1152, 1159, 1160, 1161, 1041, 1105, 1927, 1040, 1094, 1080}
+
 func drawFault(rt *rapid.T, kinds []string, nsteps, ntx int) Fault {
 	f := Fault{Kind: rapid.SampledFrom(kinds).Draw(rt, "fault_kind")}
 	switch {
@@ -256,13 +263,13 @@ func drawFault(rt *rapid.T, kinds []string, nsteps, ntx int) Fault {
 		f.At = rapid.IntRange(lo, nsteps-1).Draw(rt, "fault_at")
 		f.Sub = rapid.IntRange(0, 11).Draw(rt, "fault_sub")
 		if f.Kind == "err" {
-			f.ErrCode = uint16(rapid.SampledFrom([]int{1, 1236, 1045, 2013, 65535, 0}).Draw(rt, "err_code"))
+			f.ErrCode = uint16(rapid.SampledFrom(masterErrCodes).Draw(rt, "err_code"))
 			if f.ErrCode == 0 {
 				f.ErrCode = uint16(rapid.IntRange(1, 65535).Draw(rt, "err_code_rnd"))
 			}
 			f.State = rapid.Bool().Draw(rt, "err_state")
 			f.Msg = rapid.SampledFrom([]string{"Could not find first log file name in binary log index file", "A slave with the same server_uuid/server_id as this slave has connected to the master",
-				"x", "日志错误 ünïcödé", "msg with \x05\x00\x00\x01 bytes", "log event entry exceeded max_allowed_packet; Increase max_allowed_packet on master"}).Draw(rt, "err_msg")
+				"x", "日志错误 ünïcödé", "msg with \x05\x00\x00\x01 bytes", "log event entry exceeded max_allowed_packet; Increase max_allowed_packet on master", "Server shutdown in progress"}).Draw(rt, "err_msg")
 		}
 	case f.Kind == "cancel_out":
 		f.At = rapid.IntRange(0, nsteps).Draw(rt, "cancel_at")
